@@ -19,7 +19,8 @@ SPEC = {
     'assumptions': ['magnitude suffixes are not used in the structured lines (whether "5k" is one literal or a number plus a symbol is not fixed by the statement)'],
 }
 
-WORDS = ['çay', 'şeker', 'İ', 'ß', 'ǰ', 'ΐ', 'ﬁ', '中', '日本', 'ığdır', 'ẞ', 'ŉ', 'éa', 'İstanbul', 'straße', '𝒳', 'ǅ']
+WORDS = ['çay', 'şeker', 'İ', 'ß', 'ǰ', 'ΐ', 'ﬁ', '中', '日本', 'ığdır', 'ẞ', 'ŉ', 'éa', 'İstanbul', 'straße', '𝒳', 'ǅ',
+         'amps', 'pmol', 'ampul', 'amperes', 'toplantı', 'kısıtlı ılık']      # words that begin like am / pm; words whose case folding changes the byte length
 NAMES = ['çay', 'günlük ücret', 'zq', 'İndirim', '日本', 'ß']
 
 
@@ -60,6 +61,17 @@ def structured(rng):
             pieces.append((t, 'Operator'))
     if rng.random() < 0.2:
         pieces.append((rng.choice(WORDS), None))
+    if rng.random() < 0.15:
+        # a zone abbreviation or a month name at the end, directly behind a parenthesis or an operator (their parsers work on a
+        # re-cased copy of the line): the tokens in front of it keep their kinds and spans
+        tail = rng.choice(['EST', 'CET', 'UTC', 'march', 'Aralık', 'dec'])
+        form = rng.randrange(3)
+        if form == 0:
+            pieces += [('(', 'Operator'), (tail, None), (')', 'Operator')]
+        elif form == 1:
+            pieces += [(rng.choice('+*'), 'Operator'), (tail, None)]
+        else:
+            pieces.append((tail, None))
     line = ''
     spans = []
     if rng.random() < 0.2:
